@@ -228,4 +228,109 @@ theorem commit_eq_sequential_full_witness : ¬ CommitEqSequentialFull := by
   rw [stale_marker_deferred_witness.1, stale_marker_deferred_witness.2] at this
   exact absurd this (by decide)
 
+/-! ### the reject-out-of-order option (findings C02-F2 and C02-F3, and their repairs)
+
+The model carries one switch per defect (`repoFixedC02F2`, `repoFixedC02F3` in
+`PromModel/Tsdb/Appendable.lean`; `false` = the code as found).  The theorems below are stated about the
+switch-parameterised functions, so both the counter-examples (unrepaired code) and the positive statements
+(repaired code) stay proved whichever variant /repo currently is. -/
+
+/-- The documented contract of `AppendOptions.DiscardOutOfOrder` / `AOptions.RejectOutOfOrder` at the
+    admission decision: while the option is set no sample is accepted as out of order. -/
+def RejectHonoured (fixF2 : Bool) : Prop :=
+  ∀ (a : Appender) (view : View) (x : Sample), a.discard = true → admitDecisionWith fixF2 a view x ≠ .ok .ooo
+
+/-- Repaired code (`fixes/C02-F2.patch`): the option is honoured for every sample kind, v1 and v2. -/
+theorem reject_honoured_fixed : RejectHonoured true := by
+  intro a view x hd
+  unfold admitDecisionWith
+  split
+  · simp
+  · simp only [hd]
+    cases hr : appendable x.kind x.t x.v view a.w with
+    | error e => cases e <;> cases a.v2 <;> simp [isOOOFlag]
+    | ok ad => cases ad <;> cases a.v2 <;> simp [isOOOFlag]
+
+/-- What the code as found does guarantee: floats on v1, everything on v2. -/
+theorem reject_honoured_unfixed_partial (a : Appender) (view : View) (x : Sample) (hd : a.discard = true)
+    (hk : a.v2 = true ∨ x.kind = .f) : admitDecisionWith false a view x ≠ .ok .ooo := by
+  unfold admitDecisionWith
+  split
+  · simp
+  · simp only [hd]
+    cases hr : appendable x.kind x.t x.v view a.w with
+    | error e => cases e <;> cases hv : a.v2 <;> simp [isOOOFlag]
+    | ok ad =>
+      cases ad <;> cases hv : a.v2 <;> simp [isOOOFlag]
+      rcases hk with hk | hk
+      · simp [hv] at hk
+      · exact hk
+
+def aDiscardV1 : Appender := { v2 := false, live := true, w := ⟨90, 100, 50⟩, discard := true }
+example : aDiscardV1.discard = true ∧ (aDiscardV1.v2 = true ∨ (⟨60, .f, bitsOne⟩ : Sample).kind = .f) := by decide
+
+/-- Finding C02-F2 (the code as found): a v1 appender with `DiscardOutOfOrder` set accepts an out-of-order
+    histogram (series newest sample at t=100, window (90, 100, ooo 50), histogram at t=60) — and the
+    repaired code rejects it with "out of order". -/
+theorem reject_ignored_v1_histogram_witness :
+    admitDecisionWith false aDiscardV1 ⟨true, 100, .h, 1⟩ ⟨60, .h, 2⟩ = .ok .ooo ∧
+    admitDecisionWith true aDiscardV1 ⟨true, 100, .h, 1⟩ ⟨60, .h, 2⟩ = .error .ooo ∧
+    ¬ RejectHonoured false := by
+  refine ⟨rfl, rfl, fun h => ?_⟩
+  exact h aDiscardV1 ⟨true, 100, .h, 1⟩ ⟨60, .h, 2⟩ rfl rfl
+
+/-- The repair changes nothing else: the two variants differ only where the unrepaired v1 code accepts a
+    (float) histogram out of order although the option is set, and there the repaired code answers
+    "out of order". -/
+theorem fix_F2_only_rejects_ooo_histograms (a : Appender) (view : View) (x : Sample) :
+    admitDecisionWith true a view x = admitDecisionWith false a view x ∨
+    (a.v2 = false ∧ x.kind ≠ .f ∧ a.discard = true ∧
+      admitDecisionWith false a view x = .ok .ooo ∧ admitDecisionWith true a view x = .error .ooo) := by
+  unfold admitDecisionWith
+  split
+  · exact Or.inl rfl
+  · cases hr : appendable x.kind x.t x.v view a.w with
+    | error e => left; cases a.v2 <;> simp
+    | ok ad =>
+      cases ad
+      · left; cases a.v2 <;> simp
+      · cases hv : a.v2
+        · cases hd : a.discard
+          · left; simp
+          · by_cases hk : x.kind = .f
+            · left; simp [hk]
+            · right; simp [hk]
+        · left; simp
+
+/-- Repaired code (`fixes/C02-F3.patch`): whatever was passed to `SetOptions` — before or after the first
+    append — is what the appender created by `initAppender` (or the already live one) decides with. -/
+theorem options_reach_inner_appender_fixed (h : Head) (a : Appender) (on : Bool) (t : Int) :
+    (materialise h (a.setOptions true on) t).2.discard = on := by
+  unfold materialise Appender.setOptions
+  simp only [Bool.not_true, Bool.false_eq_true, false_and, if_false]
+  split <;> rfl
+
+/-- On every variant a live v1 appender and every v2 appender take the option. -/
+theorem options_taken_when_live (fixF3 : Bool) (a : Appender) (on : Bool) (hl : a.v2 = true ∨ a.live = true) :
+    (a.setOptions fixF3 on).discard = on := by
+  unfold Appender.setOptions
+  rcases hl with hl | hl <;> simp [hl]
+
+/-- First transaction on a fresh head with OOO window 100 and chunk range 20: v1 appender, option set
+    *before* the first append, then floats at t=100 and t=50 for one series.  Answer to the second append. -/
+def firstTxSecondAnswer (fixF2 fixF3 : Bool) : String :=
+  let h0 : Head := { oooWin := 100, chunkRange := 20 }
+  let a0 := (h0.newAppender false).setOptions fixF3 true
+  let (h1, a1) := materialise h0 a0 100
+  let (a2, st, _) := a1.appendWith fixF2 h1.store "s" ⟨100, .f, bitsOne⟩
+  (a2.appendWith fixF2 st "s" ⟨50, .f, bitsOne⟩).2.2
+
+/-- Finding C02-F3 (the code as found): the option set before the first append of a fresh head is lost
+    — the lazily created appender still has `discard = false` and the out-of-order float is accepted;
+    the repaired `initAppender` rejects it.  (Independent of the C02-F2 switch: the sample is a float.) -/
+theorem options_lost_initappender_witness :
+    (materialise {} (({ v2 := false } : Appender).setOptions false true) 100).2.discard = false ∧
+    (∀ f2, firstTxSecondAnswer f2 false = "ok") ∧ (∀ f2, firstTxSecondAnswer f2 true = "ooo") := by
+  refine ⟨by decide, ?_, ?_⟩ <;> intro f2 <;> cases f2 <;> decide
+
 end Prom.C02
